@@ -136,7 +136,7 @@ type c09Case struct {
 	Prior  string `json:"prior_storage_hex"`
 	Iei    uint8  `json:"prior_iei"`
 	Len    uint16 `json:"prior_len"`
-	ArgHex string `json:"arg_hex"` // value as big-endian bytes (integers) or the byte string (arrays / slices)
+	ArgHex string `json:"arg_hex"`                                                // value as big-endian bytes (integers) or the byte string (arrays / slices)
 	Alias  int    `json:"arg_is_window_of_own_buffer_at_offset_plus_1,omitempty"` // the slice handed to Set is element.Buffer[o:o+len(arg)] itself
 }
 
